@@ -157,6 +157,10 @@ def check_case(ctx, case):
     else:
         compare("L", o.value, flat, w.ravel().tolist(), None)
         td = list(o.value.test_distribution)
+        if orig is not None and len(td) == nsim and len(seen) != nsim:
+            # every entry of the test distribution is the statistic of a simulated catalog (also for an empty observation: the
+            # L-test draws the number of events from the forecast)
+            ctx.violation("L:test_distribution_not_made_of_simulated_catalogs", {"simulations_run": len(seen), "entries": len(td), "n_obs": n_obs})
         if len(seen) == nsim == len(td):
             for i, (ne, arr) in enumerate(seen):
                 wv, at = G.poisson_ll(flat, arr.tolist())
